@@ -249,16 +249,22 @@ class VttContext:
 
     LOGGER.debug("Check and process the last VTT paragraph.")
 
-    if self._paragraphs and self._paragraphs[-1].get_end() is None:
-      if self._paragraphs[-1].is_only_whitespace_or_empty():
-        # if the last paragraph contains only whitespace, remove it
+    # the last ISD can yield several unbounded cues, e.g. one per region
+
+    index = len(self._paragraphs)
+
+    while index > 0 and self._paragraphs[index - 1].get_end() is None:
+      index -= 1
+
+      if self._paragraphs[index].is_only_whitespace_or_empty():
+        # if the paragraph contains only whitespace, remove it
         LOGGER.debug("Removing empty unbounded last paragraph.")
-        self._paragraphs.pop()
+        del self._paragraphs[index]
 
       else:
         # set default end time code
         LOGGER.warning("Set a default end value to paragraph (begin + 10s).")
-        self._paragraphs[-1].set_end(self._paragraphs[-1].get_begin().to_seconds() + 10.0)
+        self._paragraphs[index].set_end(self._paragraphs[index].get_begin().to_seconds() + 10.0)
 
   def style_block(self):
     """Generated CSS INLINE STYLE Block"""
